@@ -7,6 +7,7 @@
 -/
 import VotelibProofs.Lemmas.NBest
 import VotelibProofs.Lemmas.SortBy
+import VotelibProofs.Lemmas.Bracket
 import Mathlib.Tactic.Ring
 import Mathlib.Algebra.Order.Field.Basic
 import VotelibModel.Threshold
@@ -147,5 +148,168 @@ theorem alternative_error_iff (partials : List Seatless) (votes : Votes) :
     constructor
     · rintro ⟨e, h⟩; cases h
     · rintro ⟨e, h⟩; cases h
+
+/-! ## bracketers -/
+
+/-- **bracketer_dispatch (coalition size).**  Whatever the partial selectors are: a party is passed iff it is passed
+    by the selector of its own bracket — `evaluators.get(n_members, default)` — applied to the whole vote; the
+    output keeps the order of `sorted_votes`. -/
+theorem coalition_dispatch (members : Cand → Nat) (evs : List (Nat × Seatless)) (dflt : Seatless)
+    (votes : Votes) (out : List Cand) (h : coalitionBracketer members evs dflt votes = .ok out) :
+    (∀ c, c ∈ out ↔ c ∈ keys votes ∧ ∃ r, (dictGet evs (members c) dflt) votes = .ok r ∧ c ∈ r) ∧
+    out.Sublist ((sortDesc votes).map (·.1)) := by
+  unfold coalitionBracketer at h
+  simp only [bind, Except.bind] at h
+  split at h
+  · cases h
+  · rename_i passed hm
+    have hout : out = List.filter (fun c => (dictGet passed (members c) []).contains c)
+        ((sortDesc votes).map (·.1)) := by cases h; rfl
+    obtain ⟨hp1, hp2⟩ := mapM_pair_ok (f := fun k => dictGet evs k dflt votes) hm
+    refine ⟨?_, hout ▸ List.filter_sublist⟩
+    intro c
+    rw [hout, List.mem_filter, mem_keys_sortDesc]
+    constructor
+    · rintro ⟨hc, hin⟩
+      refine ⟨hc, ?_⟩
+      have hv : members c ∈ sortedDistinct (((sortDesc votes).map (·.1)).map members) :=
+        mem_sortedDistinct.mpr (List.mem_map.mpr ⟨c, mem_keys_sortDesc.mpr hc, rfl⟩)
+      obtain ⟨e, he, hek, hget⟩ := dictGet_mem passed (members c) [] (hp2 _ hv)
+      rw [hget] at hin
+      exact ⟨e.2, hek ▸ hp1 e he, by simpa using hin⟩
+    · rintro ⟨hc, r, hr, hcr⟩
+      refine ⟨hc, ?_⟩
+      have hv : members c ∈ sortedDistinct (((sortDesc votes).map (·.1)).map members) :=
+        mem_sortedDistinct.mpr (List.mem_map.mpr ⟨c, mem_keys_sortDesc.mpr hc, rfl⟩)
+      obtain ⟨e, he, hek, hget⟩ := dictGet_mem passed (members c) [] (hp2 _ hv)
+      rw [hget]
+      have := hp1 e he
+      rw [hek, hr] at this
+      cases this
+      simpa using hcr
+
+/-- the coalition bracketer fails exactly when the selector of a bracket that occurs in the vote fails -/
+theorem coalition_error_iff (members : Cand → Nat) (evs : List (Nat × Seatless)) (dflt : Seatless)
+    (votes : Votes) :
+    (∃ e, coalitionBracketer members evs dflt votes = .error e) ↔
+      ∃ c ∈ keys votes, ∃ e, (dictGet evs (members c) dflt) votes = .error e := by
+  unfold coalitionBracketer
+  simp only [bind, Except.bind]
+  constructor
+  · rintro ⟨e, h⟩
+    split at h
+    · rename_i e' hm
+      obtain ⟨k, hk, e'', he''⟩ := (mapM_except_error _ _).mp ⟨e', hm⟩
+      obtain ⟨c, hc, rfl⟩ := List.mem_map.mp (mem_sortedDistinct.mp hk)
+      refine ⟨c, mem_keys_sortDesc.mp hc, e'', ?_⟩
+      cases hd : dictGet evs (members c) dflt votes with
+      | error e3 => rw [hd] at he''; cases he''; rfl
+      | ok r => rw [hd] at he''; cases he''
+    · cases h
+  · rintro ⟨c, hc, e, he⟩
+    have hv : members c ∈ sortedDistinct (((sortDesc votes).map (·.1)).map members) :=
+      mem_sortedDistinct.mpr (List.mem_map.mpr ⟨c, mem_keys_sortDesc.mpr hc, rfl⟩)
+    obtain ⟨e', he'⟩ := (mapM_except_error (fun k => do
+        let r ← (dictGet evs k dflt) votes
+        pure (k, r)) _).mpr ⟨members c, hv, e, by simp [he, bind, Except.bind]⟩
+    simp only [bind, Except.bind] at he'
+    rw [he']
+    exact ⟨e', rfl⟩
+
+/-- what `PropertyBracketer` applies to a candidate with property value `v`: the selector registered for `v`
+    (the default when there is none, or when the candidate has no such property), and "everybody passes" when
+    that selector is `None` -/
+theorem property_variant_none (evs : List (Nat × Option Seatless)) (dflt : Option Seatless) (votes : Votes) :
+    propertyVariant evs dflt votes none = (match dflt with | some e => e votes | none => .ok (keys votes)) := rfl
+
+theorem property_variant_some (evs : List (Nat × Option Seatless)) (dflt : Option Seatless) (votes : Votes)
+    (k : Nat) :
+    propertyVariant evs dflt votes (some k) =
+      (match dictGet evs k dflt with | some e => e votes | none => .ok (keys votes)) := rfl
+
+private theorem propertyLoop_spec (prop : Cand → Option Nat) (evs : List (Nat × Option Seatless))
+    (dflt : Option Seatless) (votes : Votes) :
+    ∀ (cs : List Cand) (cache : List (Option Nat × List Cand)) (out : List Cand),
+      (∀ e ∈ cache, propertyVariant evs dflt votes e.1 = .ok e.2) →
+      propertyLoop prop evs dflt votes cs cache = .ok out →
+      out.Sublist cs ∧
+      ∀ c, c ∈ out ↔ c ∈ cs ∧ ∃ r, propertyVariant evs dflt votes (prop c) = .ok r ∧ c ∈ r := by
+  intro cs
+  induction cs with
+  | nil =>
+    intro cache out _ h
+    simp only [propertyLoop] at h
+    cases h
+    simp
+  | cons x xs ih =>
+    intro cache out hinv h
+    simp only [propertyLoop] at h
+    -- common final step
+    have fin : ∀ (r rest : List Cand), propertyVariant evs dflt votes (prop x) = .ok r →
+        (rest.Sublist xs ∧ ∀ c, c ∈ rest ↔ c ∈ xs ∧ ∃ r, propertyVariant evs dflt votes (prop c) = .ok r ∧ c ∈ r) →
+        out = (if r.contains x then x :: rest else rest) →
+        out.Sublist (x :: xs) ∧
+          ∀ c, c ∈ out ↔ c ∈ x :: xs ∧ ∃ r, propertyVariant evs dflt votes (prop c) = .ok r ∧ c ∈ r := by
+      intro r rest hr ⟨hs, hmem⟩ ho
+      by_cases hx : r.contains x = true
+      · rw [if_pos hx] at ho
+        subst ho
+        refine ⟨hs.cons_cons x, ?_⟩
+        intro c
+        simp only [List.mem_cons, hmem]
+        constructor
+        · rintro (rfl | ⟨h1, h2⟩)
+          · exact ⟨Or.inl rfl, r, hr, by simpa using hx⟩
+          · exact ⟨Or.inr h1, h2⟩
+        · rintro ⟨rfl | h1, h2⟩
+          · exact Or.inl rfl
+          · exact Or.inr ⟨h1, h2⟩
+      · rw [if_neg hx] at ho
+        subst ho
+        refine ⟨hs.cons x, ?_⟩
+        intro c
+        simp only [List.mem_cons, hmem]
+        constructor
+        · rintro ⟨h1, h2⟩; exact ⟨Or.inr h1, h2⟩
+        · rintro ⟨rfl | h1, r', hr', hc⟩
+          · rw [hr] at hr'; cases hr'
+            exact absurd (by simpa using hc) hx
+          · exact ⟨h1, r', hr', hc⟩
+    split at h
+    · rename_i e hfind
+      have he := List.mem_of_find?_eq_some hfind
+      have hk : e.1 = prop x := by simpa using List.find?_some hfind
+      have hr : propertyVariant evs dflt votes (prop x) = .ok e.2 := hk ▸ hinv e he
+      simp only [bind, Except.bind] at h
+      split at h
+      · cases h
+      · rename_i rest hrest
+        exact fin e.2 rest hr (ih cache rest hinv hrest) (by cases h; rfl)
+    · simp only [bind, Except.bind] at h
+      split at h
+      · cases h
+      · rename_i r hr
+        split at h
+        · cases h
+        · rename_i rest hrest
+          have hinv' : ∀ e ∈ (prop x, r) :: cache, propertyVariant evs dflt votes e.1 = .ok e.2 := by
+            intro e he
+            rcases List.mem_cons.mp he with rfl | he'
+            · exact hr
+            · exact hinv e he'
+          exact fin r rest hr (ih _ rest hinv' hrest) (by cases h; rfl)
+
+/-- **bracketer_dispatch (property).**  A candidate is passed iff it is passed by the selector registered for its
+    own property value, applied to the whole vote (everybody of a bracket whose selector is `None` passes);
+    the output keeps the order of `sorted_votes`. -/
+theorem property_dispatch (prop : Cand → Option Nat) (evs : List (Nat × Option Seatless))
+    (dflt : Option Seatless) (votes : Votes) (out : List Cand)
+    (h : propertyBracketer prop evs dflt votes = .ok out) :
+    (∀ c, c ∈ out ↔ c ∈ keys votes ∧ ∃ r, propertyVariant evs dflt votes (prop c) = .ok r ∧ c ∈ r) ∧
+    out.Sublist ((sortDesc votes).map (·.1)) := by
+  obtain ⟨hs, hm⟩ := propertyLoop_spec prop evs dflt votes _ [] out (by simp) h
+  refine ⟨?_, hs⟩
+  intro c
+  rw [hm c, mem_keys_sortDesc]
 
 end VL.C16
